@@ -36,6 +36,11 @@ type E2JC struct {
 	ForbidForce    bool   `json:"forbidForce,omitempty"`
 	Cron           string `json:"cron,omitempty"`
 	TTL            *int64 `json:"ttl,omitempty"` // copied into Jobs created by users (cron Jobs get the config default)
+	// TemplateMeta puts labels/annotations on the job template, including the
+	// reserved keys the controllers write themselves.
+	TemplateMeta bool `json:"templateMeta,omitempty"`
+	// RestartOnFailure lets the kubelet model restart a container in place.
+	RestartOnFailure bool `json:"restartOnFailure,omitempty"`
 }
 
 type E2Cfg struct {
@@ -85,8 +90,12 @@ func (j E2JC) parallelism() *execution.ParallelismSpec {
 }
 
 func (j E2JC) template() execution.JobTemplate {
+	pod := &execution.PodTemplateSpec{Spec: corev1.PodSpec{Containers: []corev1.Container{{Name: "main", Image: "alpine", Args: []string{"${job.name}"}}}}}
+	if j.RestartOnFailure {
+		pod.Spec.RestartPolicy = corev1.RestartPolicyOnFailure
+	}
 	return execution.JobTemplate{
-		TaskTemplate:              execution.TaskTemplate{Pod: &execution.PodTemplateSpec{Spec: corev1.PodSpec{Containers: []corev1.Container{{Name: "main", Image: "alpine", Args: []string{"${job.name}"}}}}}},
+		TaskTemplate:              execution.TaskTemplate{Pod: pod},
 		Parallelism:               j.parallelism(),
 		MaxAttempts:               j.MaxAttempts,
 		RetryDelaySeconds:         j.RetryDelay,
@@ -105,6 +114,11 @@ func (j E2JC) object() *execution.JobConfig {
 	}
 	if j.Cron != "" {
 		jc.Spec.Schedule = &execution.ScheduleSpec{Cron: &execution.CronSchedule{Expression: j.Cron}}
+	}
+	if j.TemplateMeta {
+		// e.g. a template pasted from `kubectl get job -o yaml` of an earlier Job
+		jc.Spec.Template.Labels = map[string]string{"team": "a", labelJobConfigUID: "stale-uid"}
+		jc.Spec.Template.Annotations = map[string]string{"note": "b", annScheduleTime: "1600000000"}
 	}
 	return jc
 }
@@ -310,6 +324,8 @@ func (r *e2run) apply(op E2Op) {
 			w.KubeletUnflap(op.A)
 		case "terminate":
 			w.KubeletTerminate(op.A)
+		case "restart":
+			w.KubeletRestartContainer(op.A)
 		}
 	case "settle":
 		r.settle()
@@ -468,6 +484,8 @@ func genE2Setup(t *rapid.T, p e2Profile) *E2Trace {
 		j.PendingTimeout = optInt64(t, "pendingTimeout", 0, 20, 600)
 		j.ForbidForce = rapid.IntRange(0, 5).Draw(t, "forbidForce") == 0
 		j.TTL = optInt64(t, "ttl", 0, 30, 3600)
+		j.TemplateMeta = rapid.IntRange(0, 3).Draw(t, "templateMeta") == 0
+		j.RestartOnFailure = rapid.IntRange(0, 3).Draw(t, "restartOnFailure") == 0
 		if p.cron && rapid.IntRange(0, 2).Draw(t, "cron?") != 0 {
 			j.Cron = rapid.SampledFrom([]string{"* * * * *", "*/2 * * * *", "*/20 * * * * * *", "0,30 * * * * * *"}).Draw(t, "cron")
 		}
@@ -571,6 +589,13 @@ func genOpsOn(t *rapid.T, r *e2run, tr *E2Trace, p e2Profile, _ int) {
 			return rapid.SampledFrom([]string{"succeed", "succeed", "fail", "fail", "oom"}).Draw(t, "outcome")
 		})
 		kub("k-flap", 1, running, func() string { return "flap" })
+		var restartable []*corev1.Pod
+		for _, pd := range running {
+			if pd.Spec.RestartPolicy == corev1.RestartPolicyOnFailure {
+				restartable = append(restartable, pd)
+			}
+		}
+		kub("k-restart", 3, restartable, func() string { return "restart" })
 		kub("k-unflap", 4, flapped, func() string { return "unflap" })
 		kub("k-terminate", 6, terminating, func() string { return "terminate" })
 		if len(alivePods) > 0 {
